@@ -127,6 +127,10 @@ def model(ctx, cfg, label, taken, dump=None, timeout=900):
     return res
 
 
+# the driver interposes on these hooks (task id / own-waiter notes; arrival of the thread that joins the scheduler)
+WRAPS = ['-Wl,--wrap=dispenso_verif_point', '-Wl,--wrap=dispenso_verif_thread_end',
+         '-Wl,--wrap=dispenso_verif_blocking_begin', '-Wl,--wrap=dispenso_verif_blocking_end']
+
 ALL_ACTIONS = ('Start', 'DrOp', 'DrSync', 'DrUp', 'DrBody', 'TtAddReadClock', 'TtAddPush', 'EwBump', 'FutexWake',
                'TtCancelStoreTimes', 'TtCancelSetFlag', 'TtDetachSetFlag', 'TtCallsLoad', 'TtDtorLoadFlags',
                'TtDtorLoadInProgress', 'TtDtorClearFunc', 'TtStop', 'TtJoined', 'EwLoadEpochC', 'TtLoopTop',
@@ -137,13 +141,23 @@ ALL_ACTIONS = ('Start', 'DrOp', 'DrSync', 'DrUp', 'DrBody', 'TtAddReadClock', 'T
                'TtWrDecInProgress', 'PoolDrained')
 
 
-def incomplete(ctx, tot, tr, label):
-    """an execution that does not finish (deadlock, step bound, crash of the code under test) is a violation;
-    what happened before it is judged by TLC (the trace ends with the event)"""
-    if tot and tot.get('executions', 0) != tot.get('completed', 0):
-        path = ctx.save_replay('%s-incomplete.txt' % ctx.prop, '%s: driver totals %s\n\n%s' %
-                               (label, tot, ctx._trace_context(tr, sum(1 for _ in open(tr)))))
-        ctx.violation('driver:incomplete:' + label, WHAT + ': a controlled execution did not run to completion (%s)' % label, path)
+def is_incomplete(tot):
+    return bool(tot) and tot.get('executions', 0) != tot.get('completed', 0)
+
+
+def controlled(ctx, exe, args, tr, label):
+    """run the driver on controlled executions; an execution that does not finish (deadlock, step bound, crash
+    of the code under test) is a violation -- reported only if a re-run with the same arguments repeats it
+    (HOWTO_POOL 4); what happened before the end is judged by TLC (the trace ends with the event)"""
+    tot = {}
+    for attempt in (0, 1):
+        tot, _ = ctx.driver(exe, ['--out', tr] + args, WHAT, label=label, allow_incomplete=True)
+        if not is_incomplete(tot):
+            return tot
+    path = ctx.save_replay('%s-incomplete.txt' % ctx.prop, '%s: driver totals %s\n\n%s' %
+                           (label, tot, ctx._trace_context(tr, sum(1 for _ in open(tr)))))
+    ctx.violation('driver:incomplete:' + label, WHAT + ': a controlled execution did not run to completion (%s)' % label, path)
+    return tot
 
 
 def cat(files, out):
@@ -158,7 +172,7 @@ def run(ctx):
     thorough = ctx.tier == 'thorough'
     exe = ctx.build('drv_timedtask', ['harness/drv/drv_timedtask.cpp', 'harness/ctl/ctl.cpp'],
                     dispenso=vlib.DISPENSO_SRCS, flags=pool_common.TUNE + ['-DDISPENSO_TUNE_WAKE_GROUP_SIZE=2'],
-                    libs=['-Wl,--wrap=dispenso_verif_point'])
+                    libs=WRAPS)
 
     # E1 ---------------------------------------------------------------------------------------
     taken = set()
@@ -177,7 +191,7 @@ def run(ctx):
         model(ctx, 'MC_false2w.cfg', 'pool(2): period 0, x3, false on call 1 (concurrent wrappers)', taken, timeout=1500)
         model(ctx, 'MC_poolcancel.cfg', 'pool(1): steady x3, false on call 2, cancel, calls, destroy', taken)
         model(ctx, 'MC_pooldetach.cfg', 'pool(1): detach, handle destroyed, runs continue', taken)
-        model(ctx, 'MC_two.cfg', 'two tasks (pool + ImmediateInvoker), two drivers + clock thread', taken, timeout=1800)
+        model(ctx, 'MC_two.cfg', 'two tasks (pool + ImmediateInvoker) on two driver threads', taken, timeout=1800)
     else:
         # three configurations as three initial states of one TLC run (one JVM start)
         model(ctx, 'MC_quick.cfg', 'pool(1): period 0, x3, false on call 1, destroy at every point | ImmediateInvoker: steady x2 '
@@ -204,28 +218,29 @@ def run(ctx):
     traces = []
     execs = 0
     tr = os.path.join(ctx.work, 'cover.ndjson')
-    tot, _ = ctx.driver(exe, ['--out', tr, '--scen', cover_scen, '--schedules', sched], WHAT, label='cover replay')
-    incomplete(ctx, tot, tr, 'cover replay')
+    tot = controlled(ctx, exe, ['--scen', cover_scen, '--schedules', sched], tr, 'cover replay')
+    if tot.get('diverged', 0) or tot.get('stuck', 0) or tot.get('deadlocks', 0):
+        path = ctx.save_replay('%s-cover-replay.txt' % ctx.prop, 'driver totals %s\n\n%s' % (tot, ctx._trace_context(tr, sum(1 for _ in open(tr)))))
+        ctx.violation('driver:cover-replay', WHAT + ': the implementation cannot follow a behaviour of the specification', path)
     traces.append(tr)
     execs += tot.get('completed', 0)
     ctx.sample_trace(tr, 14, skip=8)
 
     # E4 ---------------------------------------------------------------------------------------
     rng = random.Random(ctx.seed)
-    scens = list(FIXED_SCENS) + [random_scenario(rng) for _ in range(60 if thorough else 10)]
+    scens = list(FIXED_SCENS) + [random_scenario(rng) for _ in range(40 if thorough else 10)]
     ctx.sample({'scenarios': [s.text() for s in scens[:4] + scens[-3:]]})
     sf = os.path.join(ctx.work, 'scens.txt')
     with open(sf, 'w') as f:
         for s in scens:
             f.write(s.text() + '\n')
-    n = 12 if thorough else 3
+    n = 6 if thorough else 3
     for pct in (0, 3):
         tr = os.path.join(ctx.work, 'rand_p%d.ndjson' % pct)
-        tot, _ = ctx.driver(exe, ['--out', tr, '--scenfile', sf, '--random', n, '--seed', ctx.seed * 7 + pct, '--pct', pct],
-                            WHAT, label='random scenarios pct%d' % pct, allow_incomplete=True)
+        tot = controlled(ctx, exe, ['--scenfile', sf, '--random', n, '--seed', ctx.seed * 7 + pct, '--pct', pct], tr,
+                         'random scenarios pct%d' % pct)
         traces.append(tr)
         execs += tot.get('completed', 0)
-        incomplete(ctx, tot, tr, 'random scenarios pct%d' % pct)
 
     # E5 ---------------------------------------------------------------------------------------
     rec = os.path.join(ctx.work, 'records.ndjson')
@@ -236,9 +251,18 @@ def run(ctx):
     ctx.sample({'record': open(rec).readline().strip()})
 
     # E3 (+ the records of E5, judged line by line by RecOK) ------------------------------------------
-    allt = cat(traces + [rec], os.path.join(ctx.work, 'all.ndjson'))
-    ctx.validate(SPEC, 'TimedTaskTrace.tla', 'TimedTaskTrace.cfg', allt, WHAT, executions=execs,
-                 label='cover replay + random/PCT scenarios + real-time records', timeout=1500)
+    if thorough:
+        # one TLC run per trace file (the deserialised trace must fit the heap)
+        for i, tr in enumerate(traces):
+            part = cat([tr] + ([rec] if i == 0 else []), os.path.join(ctx.work, 'part%d.ndjson' % i))
+            ctx.validate(SPEC, 'TimedTaskTrace.tla', 'TimedTaskTrace.cfg', part, WHAT, executions=0,
+                         label=os.path.basename(tr) + (' + real-time records' if i == 0 else ''), timeout=2400, heap='16g')
+        if not ctx.violations:
+            ctx.cov['traces_validated_against_impl'] += execs
+    else:
+        allt = cat(traces + [rec], os.path.join(ctx.work, 'all.ndjson'))
+        ctx.validate(SPEC, 'TimedTaskTrace.tla', 'TimedTaskTrace.cfg', allt, WHAT, executions=execs,
+                     label='cover replay + random/PCT scenarios + real-time records', timeout=1500)
     ctx.sample_trace(traces[-1], 10, skip=30)
 
     ctx.assumptions += [
